@@ -29,19 +29,20 @@ IHS = [1, 2, 3, 5, 10, 50, 100, 1000]
 
 
 @st.composite
-def part_case(draw, accessor=False):
-    fg = draw(gen.freq_grid(2, 14))
-    dg = draw(gen.dir_grid(2, 20))
-    dims = draw(gen.extra_dims(maxdims=2, maxsize=3)) if accessor else []
+def part_case(draw, accessor=False, threaded=False):
+    fg = draw(gen.freq_grid(20, 32)) if threaded else draw(gen.freq_grid(2, 14))
+    dg = draw(gen.dir_grid(24, 36, spacing=("whole",))) if threaded else draw(gen.dir_grid(2, 20))
+    dims = [["time", draw(st.integers(64, 160))]] if threaded else draw(gen.extra_dims(maxdims=2, maxsize=3)) if accessor else []
     npos = int(np.prod([n for _, n in dims])) if dims else 1
-    specs = [draw(gen.spectrum(kinds=gen.MULTI_KINDS)) for _ in range(min(npos, 3))]
+    specs = [draw(gen.spectrum(kinds=("multinoisy", "multi") if threaded else gen.MULTI_KINDS)) for _ in range(min(npos, 3))]
     winds = [dict(wspd=draw(st.one_of(st.floats(0, 40), st.sampled_from([0.0, 40.0]))), wdir=draw(st.floats(0, 360)), dpt=draw(st.sampled_from([0.5, 5.0, 30.0, 200.0, 5000.0])))
              for _ in range(min(npos, 3))]
     return dict(
         fg=fg, dg=dg, dims=dims, specs=specs, winds=winds, dtype=draw(st.sampled_from(["float64", "float32"])),
         agefac=draw(st.sampled_from([0.5, 1.0, 1.7, 3.0])), wscut=draw(st.sampled_from([0.0, 0.1, 0.3333, 0.7, 1.0])),
         ihmax=draw(st.sampled_from(IHS)), rel=draw(st.sampled_from([-3, -2, -1, 0, 0, 1, 3])),
-        method=draw(st.sampled_from(["ptm1", "ptm2", "ptm3"])), smooth=draw(st.booleans()) if accessor else False,
+        method=draw(st.sampled_from(["ptm1", "ptm2", "ptm3"])), smooth=False if threaded else draw(st.booleans()) if accessor else False,
+        threads=draw(st.sampled_from([4, 8, 16])) if threaded else 0,
     )
 
 
@@ -184,6 +185,14 @@ def check_accessor(case, ctx):
     lead = [d for d, _ in case["dims"]]
     shape = [n for _, n in case["dims"]]
     npos = int(np.prod(shape)) if shape else 1
+    threads = case.get("threads", 0)
+    if threads:
+        # every time step a different spectrum (rolled along direction, rescaled), one dask chunk per step,
+        # evaluated by several threads at once: the statement holds for chunked datasets however they are computed
+        v = da.values.copy()
+        for p in range(npos):
+            v[p] = np.roll(v[p], p, axis=-1) * (1 + p % 5)
+        da = da.copy(data=v)
 
     def field(key):
         vals = np.array([case["winds"][p % len(case["winds"])][key] for p in range(npos)], dtype=float).reshape(shape)
@@ -198,13 +207,21 @@ def check_accessor(case, ctx):
         det.append(int(np.asarray(specpart.partition(E, case["ihmax"])).max()))
     req = max(1, max(det) + case["rel"])
     kw = dict(ihmax=case["ihmax"], smooth=case["smooth"])
+    src_da = da.chunk({d: 1 for d in lead}) if threads else da
     with ctx.lib("spec.partition.%s" % method):
         if method == "ptm3":
-            out = da.spec.partition.ptm3(parts=req, **kw)
+            out = src_da.spec.partition.ptm3(parts=req, **kw)
         else:
-            fn = getattr(da.spec.partition, method)
+            fn = getattr(src_da.spec.partition, method)
             out = fn(field("wspd"), field("wdir"), field("dpt"), agefac=case["agefac"], wscut=case["wscut"], swells=req, **kw)
-        out = out.compute()
+        if threads:
+            import dask
+
+            with dask.config.set(scheduler="threads", num_workers=threads):
+                out = out.compute()
+            ctx.label("threads=%d" % threads)
+        else:
+            out = out.compute()
     if out.dims[0] != "part" or list(out.part.values) != list(range(out.sizes["part"])):
         raise Violation("part-dim", "dims %s part=%s" % (out.dims, out.part.values))
     for c in ("freq", "dir"):
@@ -233,4 +250,6 @@ def facets():
     return [
         Facet("np", part_case(), check_np, quick=8000, thorough=120000, qshards=8),
         Facet("accessor", part_case(accessor=True), check_accessor, quick=1200, thorough=30000, qshards=6),
+        Facet("accessor_threaded", part_case(accessor=True, threaded=True), check_accessor, quick=12, thorough=300, qshards=2,
+              doc="64-160 distinct spectra of more than 480 bins, one dask chunk each, threaded scheduler"),
     ]
